@@ -4,7 +4,7 @@ property's check against it (apply to /repo, check, revert). Usage: import_seed.
 import json, os, re, shutil, subprocess, sys
 pid, n = sys.argv[1], sys.argv[2]
 extra = sys.argv[3:]
-src = f"/tmp/seeds/{pid}/{n}"
+src = os.environ.get("SEED_SRC") or f"/tmp/seeds/{pid}/{n}"  # SEED_SRC=/tmp/seeds/C01r2/1 import_seed.py C01 4
 dst = f"/verif/seeded/{pid}-{n}"
 os.makedirs(dst, exist_ok=True)
 shutil.copy(f"{src}/patch.diff", f"{dst}/patch.diff")
